@@ -189,6 +189,15 @@ class FNeg(Neg):
 
 # ------------------------------------------------------------------------------------------ matmul / addmm
 def _matmul_ref(a, b):
+    if a.ndim == 1 or b.ndim == 1:       # NumPy's vector rules: a missing dimension is added and removed again
+        a2 = a.reshape((1,) + a.shape) if a.ndim == 1 else a
+        b2 = b.reshape(b.shape + (1,)) if b.ndim == 1 else b
+        o = _matmul_ref(a2, b2)
+        if b.ndim == 1:
+            o = o.reshape(o.shape[:-1])
+        if a.ndim == 1:
+            o = o.reshape(o.shape[:-2] + o.shape[-1:]) if b.ndim != 1 else o.reshape(o.shape[:-1])
+        return o
     sa, sb = a.shape, b.shape
     batch = bshape(sa[:-2], sb[:-2])
     n, k, m = sa[-2], sa[-1], sb[-1]
@@ -246,7 +255,14 @@ class Addmm(OpDef):
     def configs(self, tier):
         base = [((2, 2), (2, 3), (3, 2)), ((2,), (2, 3), (3, 2)), ((1, 2), (1, 3), (3, 2)), ((), (2, 1), (1, 2)),
                 ((2, 1), (2, 2), (2, 3))]
-        return [{"a": L(a), "b": L(b), "c": L(c)} for a, b, c in base]
+        # batched / vector matrix operands: "x1 + x2 @ x3" is defined for them; an implementation restricted to matrices may
+        # reject them, but an accepted call must be differentiable like any other
+        ext = [((2, 2), (2, 2, 3), (2, 3, 2)), ((2,), (2, 1, 3), (3, 2)), ((2,), (3,), (3, 2)), ((2, 2), (2, 3), (3,))]
+        return [{"a": L(a), "b": L(b), "c": L(c)} for a, b, c in base] + \
+               [{"a": L(a), "b": L(b), "c": L(c), "ext": True} for a, b, c in ext]
+
+    def may_reject(self, args):
+        return bool(args.get("ext"))
 
     def inputs(self, args):
         return [Inp("a", args["a"]), Inp("b", args["b"]), Inp("c", args["c"])]
